@@ -988,7 +988,7 @@ func WrapPhysicalFeature(f PhysicalFeature, features FeaturesByID) PhysicalFeatu
 
 func (t Tags) ClosedPath() bool {
 	start := t.Reference(0).Source()
-	end := t.Reference(len(t.References()) - 1).Source()
+	end := t.Reference(t.GeometryLen() - 1).Source()
 	return start == end && start.IsValid()
 }
 
